@@ -113,11 +113,13 @@ structure SpecSt where
   delivered : List BlockAbs := []
   excl : List Hash := []
 
-def specAfter (sp : SpecSt) (o : Op) (s' : State) : SpecSt :=
+def specAfter (sp : SpecSt) (o : Op) (s s' : State) : SpecSt :=
   match o with
   | .block b =>
     let d := if sp.delivered.any (fun x => x.hash == b.hash) then sp.delivered else b :: sp.delivered
-    { sp with delivered := d.filter (fun x => !s'.evicted.contains x.hash) }
+    -- orphans dropped by the pool bound during this op no longer count as delivered (until re-delivered)
+    let gone := s'.evicted.take (s'.evicted.length - s.evicted.length)
+    { sp with delivered := d.filter (fun x => !gone.contains x.hash) }
   | .header _ => sp
   | .invalidate h _ =>
     if h == 0 || (lookup s'.idx h).isNone then sp
@@ -137,7 +139,7 @@ def runObs (ids : List Hash) : State → SpecSt → List Op → List String → 
   | _, _, [], acc => acc.reverse
   | s, sp, o :: rest, acc =>
     let (s', r) := step s o
-    let sp' := specAfter sp o s'
+    let sp' := specAfter sp o s s'
     if checkHere ids.length o rest.isEmpty && !specOk sp' s' then
       (("!spec/" ++ toString (Spec.bestWork sp'.delivered sp'.excl)) :: acc).reverse
     else runObs ids s' sp' rest (observe s' r ids (stepNotes s s') :: acc)
@@ -179,7 +181,7 @@ def explainRun (ids : List Hash) : State → SpecSt → List Op → List String 
     | none => "nomatch@" ++ toString k
     | some c =>
       let (s', _) := step s (withChoice o c)
-      let sp' := specAfter sp o s'
+      let sp' := specAfter sp o s s'
       if !specOk sp' s' then
         match o with
         | .invalidate .. => "F-C02-a@" ++ toString k
